@@ -314,3 +314,48 @@ def same_runs(a, b, what=("beta", "pops", "evidence", "series", "final"), tol=0.
                 diffs.append(f"final samples field {f} differs")
                 break
     return diffs
+
+
+def record_again(prev, rng=None):
+    """A second *fresh* run on the very same sampler object of a recorded run (no new sampler is built)."""
+    import inspect
+
+    cfg = prev.cfg
+    sampler = prev.sampler
+    r = Run()
+    r.cfg, r.target, r.probe, r.aspire = cfg, prev.target, prev.probe, prev.aspire
+    r.payloads = []
+
+    def cb(state):
+        r.payloads.append({"iteration": state.get("iteration"), "bytes": pickle.dumps(state), "beta": (state.get("meta") or {}).get("beta"), "state": state})
+
+    kw = sample_kwargs(cfg, rng=rng, callback=cb)
+    for k in ("preconditioning", "preconditioning_kwargs"):
+        kw.pop(k, None)
+    accepted = inspect.signature(sampler.sample).parameters
+    kw = {k: v for k, v in kw.items() if k in accepted}
+    rec = smcrun.Recorder(abort_on_stall=True, keep_vectors=False)
+    smcrun.install()
+    smcrun.REC = rec
+    import minipcn
+
+    minipcn.N_CALLS = 0
+    minipcn.MAX_CALLS = 5000
+    exc = None
+    samples = None
+    try:
+        samples = sampler.sample(cfg["n"], **kw)
+    except Exception as e:  # noqa: BLE001
+        exc = e
+    finally:
+        smcrun.REC = None
+        minipcn.MAX_CALLS = None
+    r.rec, r.exc, r.samples, r.history, r.sampler = rec, exc, samples, sampler.history, sampler
+    r.res = None
+    r.final = None if samples is None else pop_to_np(samples)
+    r.log_evidence = None if samples is None or samples.log_evidence is None else float(to_np(samples.log_evidence))
+    r.log_evidence_error = None if samples is None or samples.log_evidence_error is None else float(to_np(samples.log_evidence_error))
+    r.hist = history_to_np(sampler.history)
+    r.pops = [pop_to_np(p) for p in (getattr(sampler.history, "sample_history", None) or [])]
+    r.pop_ids = [id(p) for p in (getattr(sampler.history, "sample_history", None) or [])]
+    return r
